@@ -7,9 +7,11 @@ import (
 	"fmt"
 	"os"
 	"path/filepath"
+	"runtime"
 	"runtime/debug"
 	"sort"
 	"strconv"
+	"time"
 
 	"verif/checker/load"
 	"verif/checker/report"
@@ -50,6 +52,9 @@ func main() {
 		}
 		return
 	}
+	// resource watchdog: an analysis that does not converge is a failed check with a clear
+	// message, never a machine brought down (limits: JSVET_MAX_SECONDS, JSVET_MAX_MB)
+	go watchdog(*prop, *verif, envInt("JSVET_MAX_SECONDS", 600), envInt("JSVET_MAX_MB", 8192))
 	spec, ok := rules.Properties[*prop]
 	if !ok {
 		fmt.Fprintf(os.Stderr, "unknown property %q\n", *prop)
@@ -108,4 +113,27 @@ func check(run *report.Run, spec *rules.PropSpec, repo, verif, tier string) (cod
 		r.Run(ctx)
 	}
 	return run.Finish(verif, known, spec.Explanation)
+}
+
+func envInt(name string, def int) int {
+	if v, err := strconv.Atoi(os.Getenv(name)); err == nil && v > 0 {
+		return v
+	}
+	return def
+}
+
+func watchdog(prop, verif string, maxSeconds, maxMB int) {
+	start := time.Now()
+	var ms runtime.MemStats
+	for {
+		time.Sleep(500 * time.Millisecond)
+		runtime.ReadMemStats(&ms)
+		mb := int(ms.Sys >> 20)
+		el := int(time.Since(start).Seconds())
+		if el > maxSeconds || mb > maxMB {
+			fmt.Printf("  violation rule=RESOURCES key=RESOURCES:budget at -: UNDECIDED: the analysis did not finish within its budget (%d s of %d, %d MB of %d): a rule does not converge on this tree\n", el, maxSeconds, mb, maxMB)
+			fmt.Printf("VIOLATION property=%s replay=%s\n", prop, filepath.Join(verif, "evidence", "replay", prop+".json"))
+			os.Exit(1)
+		}
+	}
 }
